@@ -5,6 +5,9 @@
 //   mt Q T seed n  : real threads, Q=0 concurrent_queue / 1 concurrent_bounded_queue(cap); FIFO / conservation oracle
 //   abortwb        : white-box replay of the abort finding on concurrent_bounded_queue (deterministic)
 #include "drv/common.h"
+#include <functional>
+#include <algorithm>
+#include <random>
 #include "gate/gate.h"
 #include <random>
 #include <map>
@@ -149,8 +152,63 @@ static int do_abortwb() {
     _exit(0);   // the queue is wedged by construction: a further pop would spin for ever
 }
 
+// bmixed: non-blocking calls while blocking calls are parked.  K consumers block in pop() on an empty bounded queue (head_counter runs ahead of
+// tail_counter): try_pop must report empty at once; then K+2 pushes: the parked pops get the first K items, try_pop the other two in order,
+// then empty again.  Mirror image: the queue is full, K producers block in push(): try_push must fail at once, pops deliver in push order.
+static int do_bmixed(int K, long cap, unsigned seed) {
+    std::mt19937 rng(seed);
+    long stuck = 0, wrong = 0, order = 0;
+    auto timed = [&](std::function<int()> f, int& res) {            // returns false if f does not return within 2 s
+        std::atomic<int> done{0}; std::atomic<int> r{0};
+        std::thread t([&] { r = f(); done = 1; });
+        for (int i = 0; i < 2000 && !done.load(); ++i) std::this_thread::sleep_for(std::chrono::milliseconds(1));
+        if (!done.load()) { std::printf("STUCK 1 WRONG 0 ORDER 0\n"); std::fflush(stdout); _exit(0); }
+        t.join(); res = r.load(); return true;
+    };
+    {   // consumers parked
+        tbb::concurrent_bounded_queue<long> q; q.set_capacity(cap + K + 2);
+        std::vector<long> got(K, -1); std::vector<std::thread> th;
+        for (int k = 0; k < K; ++k) th.emplace_back([&, k] { long v = -1; q.pop(v); got[k] = v; });
+        auto* rep = q.my_queue_representation;
+        for (int i = 0; i < 3000 && (long)rep->head_counter.load() < K; ++i) std::this_thread::sleep_for(std::chrono::milliseconds(1));
+        std::this_thread::sleep_for(std::chrono::milliseconds(2 + rng() % 5));
+        int r = -1; long v = -7;
+        timed([&] { return q.try_pop(v) ? 1 : 0; }, r);
+        if (r != 0) wrong++;                                          // empty queue: try_pop must fail
+        for (long i = 1; i <= K + 2; ++i) q.push(i);
+        for (auto& x : th) x.join();
+        std::vector<long> s(got); std::sort(s.begin(), s.end());
+        for (int k = 0; k < K; ++k) if (s[k] != k + 1) order++;      // the parked pops hold the first K tickets
+        long a = -1, b = -1; int r1 = 0, r2 = 0, r3 = 1;
+        timed([&] { return q.try_pop(a) ? 1 : 0; }, r1); timed([&] { return q.try_pop(b) ? 1 : 0; }, r2);
+        if (!r1 || !r2 || a != K + 1 || b != K + 2) order++;
+        long c = -1; timed([&] { return q.try_pop(c) ? 1 : 0; }, r3); if (r3 != 0) wrong++;
+    }
+    {   // producers parked
+        tbb::concurrent_bounded_queue<long> q; q.set_capacity(cap);
+        for (long i = 1; i <= cap; ++i) q.push(i);
+        std::vector<std::thread> th;
+        for (int k = 0; k < K; ++k) th.emplace_back([&, k] { q.push(1000 + k); });
+        auto* rep = q.my_queue_representation;
+        for (int i = 0; i < 3000 && (long)rep->tail_counter.load() < cap + K; ++i) std::this_thread::sleep_for(std::chrono::milliseconds(1));
+        std::this_thread::sleep_for(std::chrono::milliseconds(2 + rng() % 5));
+        int r = -1; timed([&] { return q.try_push(5L) ? 1 : 0; }, r);
+        if (r != 0) wrong++;                                          // full queue: try_push must fail
+        for (long i = 1; i <= cap; ++i) { long v = -1; int rr = 0; timed([&] { q.pop(v); return 1; }, rr); if (v != i) order++; }
+        std::vector<long> rest;
+        for (int k = 0; k < K; ++k) { long v = -1; int rr = 0; timed([&] { q.pop(v); return 1; }, rr); rest.push_back(v); }   // each pop frees the slot of one parked producer
+        for (auto& x : th) x.join();
+        long v; if (q.try_pop(v)) order++;
+        std::sort(rest.begin(), rest.end());
+        if ((long)rest.size() != K) order++; else for (int k = 0; k < K; ++k) if (rest[k] != 1000 + k) order++;
+    }
+    std::printf("STUCK %ld WRONG %ld ORDER %ld\n", stuck, wrong, order);
+    return 0;
+}
+
 int main(int argc, char** argv) {
     std::string m = argc > 1 ? argv[1] : "";
+    if (m == "bmixed") return do_bmixed(atoi(argv[2]), atol(argv[3]), (unsigned)atoi(argv[4]));
     if (m == "qidx") return do_qidx();
     if (m == "gate") return do_gate();
     if (m == "bgate") return do_bgate();
